@@ -36,10 +36,11 @@ Not asserted (not in the statement): which spans are called, the statistical thr
 the p-value beyond `<= threshold`.
 
 Tolerated exceptions (counted in a note) -- everything else that is raised is reported:
- * recursive_seqlets raises ZeroDivisionError when all windows of one length in [min, max] have the same sign
-   over the whole batch (1 / n_pos or 1 / n_neg in the histogram step; short tracks dominated by bumps).  On
-   quantised tracks the oracle recomputes that precondition exactly; a ZeroDivisionError without it is
-   reported (finding recursive-raised-ZeroDivisionError-unexpected).
+ * recursive_seqlets raises ZeroDivisionError when some length in [min, max] has, over the whole batch, no
+   window with a positive sum or no window with a negative sum (1 / n_pos, 1 / n_neg or 999 * 0 / xmin with
+   xmin == 0 in the histogram step; short tracks dominated by bumps).  On quantised tracks the oracle recomputes
+   that precondition exactly; a ZeroDivisionError without it is reported (finding
+   recursive-raised-ZeroDivisionError-unexpected).
  * tfmodisco_seqlets raises inside its threshold estimation on some small inputs: tolerated only if the
    innermost frame of tangermeme/seqlet.py in the traceback is _laplacian_null or _isotonic_thresholds;
    an exception from the extraction / attribution part or from argument handling is reported.
@@ -125,16 +126,16 @@ def _rec_params(case):
 
 
 def _zde_expected(X64, mn, mx):
-    """some length in [mn, mx] whose windows (over all examples) are all > 0 or all <= 0: the documented-by-behaviour
-    precondition of the ZeroDivisionError of the histogram step (exact on quantised tracks)"""
+    """some length in [mn, mx] that has (over all examples) no window with a sum > 0 or no window with a sum < 0: the
+    precondition of the ZeroDivisionError of the histogram step (exact on quantised tracks).  No window <= 0 gives
+    1 / n_neg, non-positive windows that are all exactly 0 give xmin == 0 and 999 * 0 / 0; no window > 0 gives 1 / n_pos."""
     n, l = X64.shape
     cs = numpy.cumsum(X64, axis=1)
     for j in range(mn, mx + 1):
         if l - j <= 0:
             return True
         w = cs[:, j:] - cs[:, :l - j]
-        pos = int((w > 0).sum())
-        if pos == 0 or pos == w.size:
+        if not (w > 0).any() or not (w < 0).any():
             return True
     return False
 
@@ -167,7 +168,7 @@ def _eval_recursive(case):
         # tracks the precondition is recomputed exactly and a ZeroDivisionError without it is reported.
         if quant and not _zde_expected(X64, mn, mx):
             return [('recursive-raised-ZeroDivisionError-unexpected',
-                     'recursive_seqlets raised ZeroDivisionError although every length in [%d, %d] has windows of both signs' % (mn, mx))], 0, (0, 0)
+                     'recursive_seqlets raised ZeroDivisionError although every length in [%d, %d] has windows with positive and with negative sums' % (mn, mx))], 0, (0, 0)
         if not numpy.array_equal(base, base0):
             return [('input-modified', 'recursive_seqlets modified its input (before raising ZeroDivisionError)')], -1, (0, 0)
         return [], -1, (0, 0)
@@ -505,7 +506,7 @@ def run(rep):
         for f, m in viol:
             rep.violation(m, case, finding=f)
     rep.note('%d recursive seqlets checked (%d starting at position 0, %d ending at the last position); %d recursive calls raised ZeroDivisionError '
-             '(all windows of one length one-signed - recomputed on quantised tracks; not asserted)' % (total, e0, el, zde))
+             '(some length without a positive or without a negative window sum - recomputed on quantised tracks; not asserted)' % (total, e0, el, zde))
     for i in range(n_tfm):
         if rep.left() < 2:
             rep.note('time budget: %d of %d tfmodisco cases evaluated' % (i, n_tfm))
